@@ -14,7 +14,7 @@ Definition file_of (r : response) : option str :=
 Definition has_fb (rt : route) : bool := match r_fallback rt with Some _ => true | None => false end.
 
 (* which file the responder opens for a request that passes the sanitiser *)
-Definition opened_file (rt : route) (files : fs) (fp : str) : option (str * (Z * Z)) :=
+Definition opened_file (rt : route) (files : fs) (fp : str) : option (str * (Z * mtime)) :=
   match fs_get files fp with
   | Some v => Some (fp, v)
   | None => match r_fallback rt with
@@ -30,8 +30,8 @@ Lemma serve_unfold rt files path ims rng :
   | Some fp =>
     match opened_file rt files fp with
     | None => R404
-    | Some (file, (size, mtime)) =>
-      if match ims with Some t => mtime <=? t | None => false end then R304 file
+    | Some (file, (size, mt)) =>
+      if match ims with Some t => mtime_sec mt <=? t | None => false end then R304 file
       else match rng with
            | RInvalid => R400
            | _ => resp_of file (set_range size (range_arg rng))
@@ -42,11 +42,11 @@ Proof.
   unfold serve, opened_file, has_fb. cbn [negb].
   destruct (sanitize _ _ _ _) as [fp|]; [|reflexivity].
   destruct (fs_get files fp) as [[sz mt]|].
-  - destruct (match ims with Some t => mt <=? t | None => false end); [reflexivity|].
+  - destruct (match ims with Some t => mtime_sec mt <=? t | None => false end); [reflexivity|].
     destruct rng; try reflexivity; cbn [range_arg]; destruct (set_range _ _); reflexivity.
   - destruct (r_fallback rt) as [fb|]; [|reflexivity].
     destruct (fs_get files fb) as [[sz mt]|]; [|reflexivity].
-    destruct (match ims with Some t => mt <=? t | None => false end); [reflexivity|].
+    destruct (match ims with Some t => mtime_sec mt <=? t | None => false end); [reflexivity|].
     destruct rng; try reflexivity; cbn [range_arg]; destruct (set_range _ _); reflexivity.
 Qed.
 
@@ -64,12 +64,12 @@ Proof.
   unfold opened_file. unfold may_open.
   destruct (fs_get files fp) as [[sz mt]|].
   - intro H. assert (f = fp) as ->; [|rewrite IN; reflexivity].
-    destruct (match ims with Some t => mt <=? t | None => false end); [injection H as <-; reflexivity|].
+    destruct (match ims with Some t => mtime_sec mt <=? t | None => false end); [injection H as <-; reflexivity|].
     destruct rng; try discriminate; rewrite file_of_resp_of in H; injection H as <-; reflexivity.
   - destruct (r_fallback rt) as [fb|]; [|discriminate].
     destruct (fs_get files fb) as [[sz mt]|]; [|discriminate].
     intro H. assert (f = fb) as ->; [|rewrite str_eqb_refl; apply orb_true_r].
-    destruct (match ims with Some t => mt <=? t | None => false end); [injection H as <-; reflexivity|].
+    destruct (match ims with Some t => mtime_sec mt <=? t | None => false end); [injection H as <-; reflexivity|].
     destruct rng; try discriminate; rewrite file_of_resp_of in H; injection H as <-; reflexivity.
 Qed.
 
@@ -90,13 +90,13 @@ Theorem serve_response_ok rt files path ims rng r f size mtime fp :
   sanitize (length (r_prefix rt)) (has_fb rt) (r_dir rt) path = Some fp ->
   opened_file rt files fp = Some (f, (size, mtime)) ->
   serve rt files false path ims rng = r ->
-  (exists t, ims = Some t /\ mtime <= t /\ r = R304 f) \/
+  (exists t, ims = Some t /\ mtime_sec mtime <= t /\ r = R304 f) \/
   (rng = RInvalid /\ r = R400) \/
   (file_of r = Some f /\ response_ok size rng r = true).
 Proof.
   intros OK Hs S O H. rewrite serve_unfold, S, O in H.
   destruct ims as [t|].
-  - destruct (Z.leb_spec mtime t).
+  - destruct (Z.leb_spec (mtime_sec mtime) t).
     + left. exists t. repeat split; [assumption | symmetry; exact H].
     + right. destruct rng; subst r; try (right; split; [apply file_of_resp_of | apply response_ok_sound; assumption]).
       left. split; reflexivity.
@@ -108,14 +108,14 @@ Qed.
 Theorem not_modified_iff rt files path ims rng fp f size mtime :
   sanitize (length (r_prefix rt)) (has_fb rt) (r_dir rt) path = Some fp ->
   opened_file rt files fp = Some (f, (size, mtime)) ->
-  (serve rt files false path ims rng = R304 f <-> exists t, ims = Some t /\ mtime <= t).
+  (serve rt files false path ims rng = R304 f <-> exists t, ims = Some t /\ mtime_sec mtime <= t).
 Proof.
   intros S O. rewrite serve_unfold, S, O. split.
   - destruct ims as [t|].
-    + destruct (Z.leb_spec mtime t); [intros _; exists t; split; [reflexivity | assumption]|].
+    + destruct (Z.leb_spec (mtime_sec mtime) t); [intros _; exists t; split; [reflexivity | assumption]|].
       destruct rng; try discriminate; destruct (set_range _ _); discriminate.
     + destruct rng; try discriminate; destruct (set_range _ _); discriminate.
-  - intros (t & -> & L). destruct (Z.leb_spec mtime t); [reflexivity | lia].
+  - intros (t & -> & L). destruct (Z.leb_spec (mtime_sec mtime) t); [reflexivity | lia].
 Qed.
 
 (* ... stated with the oracle the harness evaluates *)
@@ -276,7 +276,7 @@ Proof.
   assert (OF : exists v, opened_file rt files fp = Some (f, v)).
   { destruct (opened_file rt files fp) as [[f0 [sz mt]]|]; [|discriminate].
     exists (sz, mt). f_equal. f_equal.
-    destruct (match ims with Some t => (mt <=? t)%Z | None => false end); [injection H as <-; reflexivity|].
+    destruct (match ims with Some t => (mtime_sec mt <=? t)%Z | None => false end); [injection H as <-; reflexivity|].
     destruct rng; try discriminate; rewrite file_of_resp_of in H; injection H as <-; reflexivity. }
   destruct OF as [v OF]. unfold opened_file in OF.
   destruct (fs_get files fp) as [w|] eqn:G.
@@ -297,4 +297,27 @@ Proof.
   destruct (has_fb rt); [|reflexivity]. cbn.
   destruct (contains (dir_slash (r_dir rt) ++ dot) dotdot); [reflexivity|].
   destruct (startswith (dir_slash (r_dir rt) ++ dot) (r_dir rt)); reflexivity.
+Qed.
+
+(* ================= truncation of the modification time ================= *)
+Open Scope Z_scope.
+Ltac Zify.zify_post_hook ::= Z.div_mod_to_equations.
+
+(* the sub-second part of the modification time never matters: not modified since t iff the
+   file was last modified before second t+1 began *)
+Theorem mtime_truncation m t : 0 < snd m -> (mtime_sec m <= t <-> fst m < (t + 1) * snd m).
+Proof. unfold mtime_sec. destruct m as [n d]. cbn [fst snd]. intro H. nia. Qed.
+
+(* Last-Modified is never later than the modification time, and less than a second earlier *)
+Theorem last_modified_bounds m : 0 < snd m ->
+  last_modified m * snd m <= fst m < (last_modified m + 1) * snd m.
+Proof. unfold last_modified, mtime_sec. destruct m as [n d]. cbn [fst snd]. intro H. nia. Qed.
+
+(* the code as found rounded to the microsecond first: 1600000000.9999996 became second
+   1600000001, so If-Modified-Since = 1600000000 (the file's own second) answered 200 *)
+Theorem mtime_as_found_refuted :
+  exists m t, 0 < snd m /\ mtime_sec m <= t /\ ~ (mtime_sec_as_found m <= t).
+Proof.
+  exists (16000000009999996, 10000000), 1600000000. vm_compute.
+  split; [reflexivity|]. split; [discriminate|]. intro H. apply H. reflexivity.
 Qed.
